@@ -640,6 +640,17 @@ func handleInputStream(s *Session, handler Handler) (err error) {
 
 	iqOk := isIQ(start.Name)
 	_, _, id, typ := getIDTyp(start.Attr)
+	// The sender is named by the unqualified from attribute only (attr.Get
+	// would also match x:from in some other namespace).
+	// Like the id and type it is looked up before the handler runs: the handler
+	// is given a pointer to the start element and may change it.
+	var fromAttr string
+	for _, a := range start.Attr {
+		if a.Name.Space == "" && a.Name.Local == "from" {
+			fromAttr = a.Value
+			break
+		}
+	}
 
 	if typ == string(stanza.ResultIQ) || typ == "error" {
 		s.sentStanzaMutex.Lock()
@@ -690,15 +701,6 @@ func handleInputStream(s *Session, handler Handler) (err error) {
 	iqNeedsResp := typ == string(stanza.GetIQ) || typ == string(stanza.SetIQ)
 	// If the user did not write a response to an IQ, send a default one.
 	if iqOk && iqNeedsResp && !rw.wroteResp {
-		// The sender is named by the unqualified from attribute only (attr.Get
-		// would also match x:from in some other namespace).
-		var fromAttr string
-		for _, a := range start.Attr {
-			if a.Name.Space == "" && a.Name.Local == "from" {
-				fromAttr = a.Value
-				break
-			}
-		}
 		var to jid.JID
 		if fromAttr != "" {
 			to, err = jid.Parse(fromAttr)
